@@ -234,7 +234,8 @@ def run(chk: Check, tier: str):
     from common import machinery_failure
 
     for flt, want_violation in (("sorted", False), ("asFound", True)):
-        res = tlc.run("MC_McsEnum", tlc.cfg_text(invariants=["Exact", "NoSupersetOfEarlier", "Bounded"], constants={"Filter": flt}), f"C15_mcsenum_{flt}", timeout=1800)
+        res = tlc.run("MC_McsEnum", tlc.cfg_text(spec="FairSpec" if flt == "sorted" else "Spec", invariants=["Exact", "NoSupersetOfEarlier", "Bounded"],
+                                                 properties=["Terminates"] if flt == "sorted" else [], constants={"Filter": flt}), f"C15_mcsenum_{flt}", timeout=1800)
         if want_violation:
             if res.violated != "Exact":
                 machinery_failure("MC_McsEnum: the unsorted superset filter does not violate Exact (vacuous)")
